@@ -111,6 +111,27 @@ def _viol_once(rep, rid, key, msg, loc=None):
 
 
 
+def known_via_callers(C, rep, rid, path, kind):
+    """a census site in an untabled helper whose every caller carries a *listed known finding* of the same rule and kind is the same
+    finding, moved into the helper: -> the caller's function key (the finding is then reported under that key), else None"""
+    if not path:
+        return None
+    from .report import load_known
+    known, _f = load_known()
+    cs = C.callers_of(path) - {path}
+    if not cs:
+        return None
+    keys = set()
+    for g in cs:
+        gk = C.fn_key(g)
+        import re as _re
+        norm = lambda k: _re.sub(r'::\\{closure#\\d+\\}', '', k)
+        if not any(p_ == rep.pid and norm(k_) == norm('%s|%s|%s' % (rid, gk, kind)) for (p_, k_) in known):
+            return None
+        keys.add(gk)
+    return sorted(keys)[0]
+
+
 def moved_ok(C, groups, lookup, path_of, key, n, census_name=None):
     """helper-extraction tolerance for the table censuses: see Census.moved_from_reviewed. groups: {(fn_key, kind): [sites]},
     lookup(fn_key, kind) -> reviewed count or None, path_of: fn_key -> def path. Budget taken from a caller is remembered."""
@@ -234,6 +255,9 @@ def census_part(F, C, R, rep, tag=''):
                      % (fk, len(lst), kind, ent[1]), lst[-1][0].loc(lst[-1][1]))
         elif moved_ok(C, per, lambda g, k: next((row[2] for row in T.ARITH_TABLE if row[1] == k and re.search(row[0], g)), None), {C.fn_key(x[0].path): x[0].path for v in per.values() if isinstance(v, list) for x in v}, (fk, kind), len(lst), 'arith'):
             rep.ok('R14.2', tag + '%s %s x%d (moved)' % (fk, kind, len(lst)), 'helper reached only from reviewed functions that lost at least as many such asserts')
+        elif known_via_callers(C, rep, 'R14.2', {C.fn_key(x[0].path): x[0].path for v in per.values() if isinstance(v, list) for x in v}.get(fk), kind):
+            g_ = known_via_callers(C, rep, 'R14.2', {C.fn_key(x[0].path): x[0].path for v in per.values() if isinstance(v, list) for x in v}.get(fk), kind)
+            _viol_once(rep, 'R14.2', '%s|%s' % (g_, kind), 'unguarded machine arithmetic (%s) in %s, a helper reached only from %s where this finding is listed: panics in debug builds / wraps in release for extreme values' % (kind, fk, g_), lst[0][0].loc(lst[0][1]))
         else:
             _viol_once(rep, 'R14.2', '%s|%s' % (fk, kind), 'unguarded machine arithmetic (%s x%d) in %s: panics in debug builds / wraps in release for extreme values'
                      % (kind, len(lst), fk), lst[0][0].loc(lst[0][1]))
